@@ -178,7 +178,23 @@ def probe_roundtrip(D, N, seed):
     u = rng.normal(size=(2,) + (N,) * D)
     back = np.asarray(sp.ifft(sp.fft(jnp.asarray(u)), num_spatial_dims=D, num_points=N))
     err = float(np.max(np.abs(back - u)))
-    return {"ok": err <= 1e-12, "err": err}
+    res = {"explicit": err}
+    ok = err <= 1e-12
+    # every documented call form of the inverse: num_points only; and, for D >= 2, nothing (inferred from the spectrum)
+    forms = {"num_points_only": dict(num_points=N)}
+    if D >= 2:
+        forms["inferred"] = {}
+        forms["inferred_D_given"] = dict(num_spatial_dims=D)
+    for label, kw in forms.items():
+        try:
+            b2 = np.asarray(sp.ifft(sp.fft(jnp.asarray(u)), **kw))
+            e2 = float(np.max(np.abs(b2 - u))) if b2.shape == u.shape else float("inf")
+        except Exception as ex_:  # noqa: BLE001
+            e2 = float("inf")
+            res[label + "_exception"] = f"{type(ex_).__name__}: {str(ex_)[:120]}"
+        res[label] = e2
+        ok = ok and e2 <= 1e-12
+    return {"ok": bool(ok), "err": max(v for v in res.values() if isinstance(v, float)), "forms": res}
 
 
 def probe_xy(D, N):
